@@ -1,9 +1,7 @@
 package checks
 
 import (
-	"bytes"
 	"fmt"
-	"sort"
 
 	"github.com/indexsupply/shovel/shovel"
 
@@ -25,13 +23,15 @@ func init() {
 		ID:        "C05",
 		Level:     "exploration",
 		Technique: "commit-boundary monitor (dependent's new position vs every referenced integration's position in the same snapshot) + bounded reference-projection oracle (required ⊆ rows ⊆ allowed) over adversarial task orders",
-		Rule: "each case builds a dependency graph from filter references: 1–3 referenced integrations (log- or tx-indexing) and a dependent whose filter (on an event input or on a block field) references their tables, optionally a second-level dependent; " +
-			"tasks are stepped in adversarial orders: dependent first while references never started, only some references started, references lagging by random amounts, references ahead, a reference stepping between the dependent's two transactions (hook). " +
-			"signature = (graph shape, filter site, polarity, order pattern, observed outcome classes); trivial = the dependent never committed.",
+		Rule: "each case builds a dependency graph from filter references: 1–3 referenced integrations (log- or tx-indexing) and a dependent whose filter (on an event input or on a block field) references their tables; optionally a second referrer of the same integration, or a second-level dependent that looks up the first dependent's table; optionally two sources of one chain (every integration on both, dependency judged per source); optionally reorganisations (position monitor only). " +
+			"tasks are stepped in adversarial orders: dependents first while references never started, only some references started, references started on the other source only, references lagging by random amounts, references ahead, a reference stepping between the dependent's two transactions (hook), a reference rolling back after a reorganisation while the dependent trails. " +
+			"The monitor runs around every step of every dependent, also while settling: the highest block a commit records or writes rows for is at most the referenced integration's position for the same source (the larger of its value when the step began and in the commit snapshot). " +
+			"signature = (graph shape, filter site, polarity, order pattern, sources, reorgs); trivial = the dependent never committed.",
 		Assumptions: []string{
-			"growth-only chains; all integrations of a graph run on the same source (the dependency is per source)",
-			"reference lookups see the referenced table as of the dependent's step, which may already hold later blocks: rows whose value is referenced at or below the row's own block are required, rows whose value is referenced anywhere in the final table are allowed (reversed for !contains)",
+			"the dependency is per source: all integrations of a graph are attached to the same sources",
+			"reference lookups see the referenced table as of the dependent's step, which may already hold later blocks (and rows of the other source): rows whose value the own source's referenced rows hold at or below the row's own block are required, rows whose value is referenced anywhere in the final tables are allowed (reversed for !contains)",
 			"every reference filter of one dependent has the same polarity (contains or !contains), so acceptance is monotone in the referenced data",
+			"with reorganisations the content oracle is not applied (lookups may legitimately have seen rows that were orphaned later); positions and written block numbers are still judged",
 		},
 		NCases: func(tier string) int {
 			if tier == "thorough" {
@@ -43,7 +43,7 @@ func init() {
 		CrashIsViolation: true,
 		CaseTimeoutS:     300,
 		MinObs: func(tier string) map[string]int64 {
-			return map[string]int64{"dependent_commits_checked": 400, "dependent_idle_while_refs_missing": 100, "dependent_rows_required": 300, "dependent_rows_rejected": 100, "between_tx_interleavings": 30, "cases_some_refs_unstarted": 15}
+			return map[string]int64{"dependent_commits_checked": 400, "dependent_idle_while_refs_missing": 100, "dependent_rows_required": 300, "dependent_rows_rejected": 100, "between_tx_interleavings": 30, "cases_some_refs_unstarted": 10, "cases_two_sources_one_chain": 20, "cases_with_reorgs": 20, "reorgs_applied": 20, "cases_two_referrers_of_one_integration": 30, "cases_second_level_dependent": 30, "second_level_commits_checked": 50, "idle_while_started_only_on_other_source": 5}
 		},
 	})
 }
@@ -65,6 +65,76 @@ func c05RefDecl(r *vk.RNG, name, table string, txMode bool) *model.Decl {
 	return d
 }
 
+// c05Dep is one integration with reference filters.
+type c05Dep struct {
+	decl  *model.Decl
+	neg   bool
+	op    string
+	site  int
+	provs []c05Prov
+	level int // 1: references plain integrations; 2: references another dependent's table
+}
+
+// c05Prov names the (integration, column) a filter looks up.
+type c05Prov struct{ ig, col string }
+
+var (
+	c05IG  = []string{"ig-a", "ig-b", "ig-c", "ig-d", "ig-e"}
+	c05Tbl = []string{"t_a", "t_b", "t_c", "t_d", "t_e"}
+)
+
+// c05MkDep builds a dependent: the first provider is looked up at `site`
+// (0: non-indexed input, 1: indexed input, 2: block field log_addr), the
+// others from further block fields.
+func c05MkDep(r *vk.RNG, idx int, event string, provs []c05Prov, level int) *c05Dep {
+	d := &c05Dep{neg: r.Chance(1, 4), site: r.Intn(3), provs: provs, level: level}
+	d.op = "contains"
+	if d.neg {
+		d.op = "!contains"
+	}
+	dep := &model.Decl{Name: c05IG[idx], Enabled: true, Table: c05Tbl[idx], ColTypes: map[string]string{}, InFilter: map[string]model.Filter{}}
+	dep.EventName = event
+	ref := func(p c05Prov) model.Filter {
+		return model.Filter{Op: d.op, Ref: &model.Ref{Integration: p.ig, Column: p.col}}
+	}
+	switch d.site {
+	case 0:
+		dep.Inputs = []refmodel.Field{{Name: "amt", Type: refmodel.Uint(128), Column: "amt"}, {Name: "addr", Type: refmodel.Address(), Column: "addr"}}
+		dep.InFilter["addr"] = ref(provs[0])
+	case 1:
+		dep.Inputs = []refmodel.Field{{Name: "addr", Type: refmodel.Address(), Column: "addr", Indexed: true}, {Name: "amt", Type: refmodel.Uint(128), Column: "amt"}}
+		dep.InFilter["addr"] = ref(provs[0])
+	case 2:
+		dep.Inputs = []refmodel.Field{{Name: "amt", Type: refmodel.Uint(128), Column: "amt"}}
+		dep.Block = []model.BlockField{{Name: "log_addr", Column: "log_addr", ColType: "bytea", Filter: ref(provs[0])}}
+	}
+	extra := []string{"tx_signer", "tx_to"}
+	for i := 1; i < len(provs) && i <= len(extra); i++ {
+		dep.Block = append(dep.Block, model.BlockField{Name: extra[i-1], Column: extra[i-1], ColType: "bytea", Filter: ref(provs[i])})
+	}
+	if len(provs) > 1 {
+		dep.FilterAgg = vk.Pick(r, []string{"and", "or", ""})
+	}
+	d.decl = dep
+	return d
+}
+
+// the column of a dependent that holds addresses (what a second-level dependent looks up)
+func (d *c05Dep) addrCol() string {
+	if d.site == 2 {
+		return "log_addr"
+	}
+	return "addr"
+}
+
+type c05DepPair struct {
+	p     *mPair
+	d     *c05Dep
+	provP []*mPair
+	// positions of the providers when the step began
+	before []uint64
+}
+
 func c05Run(c *vk.Case) {
 	r := c.R
 	nref := r.Range(1, 3)
@@ -72,67 +142,81 @@ func c05Run(c *vk.Case) {
 	for i := range pool {
 		pool[i] = r.Bytes(20)
 	}
-	neg := r.Chance(1, 4)
-	op := "contains"
-	if neg {
-		op = "!contains"
+	nsrc := 1
+	if r.Chance(1, 4) {
+		nsrc = 2 // two sources of the same chain (the live + backfill setup)
+	}
+	reorgs := r.Chance(1, 4)
+	srcNames := namePoolSrc[:nsrc]
+	var srcRefs []model.SrcRef
+	for _, s := range srcNames {
+		srcRefs = append(srcRefs, model.SrcRef{Name: s, Start: 1})
 	}
 	var decls []*model.Decl
 	var refs []*model.Decl
 	for i := 0; i < nref; i++ {
-		d := c05RefDecl(r, namePoolIG[i], namePoolTbl[i], r.Chance(1, 4))
+		d := c05RefDecl(r, c05IG[i], c05Tbl[i], r.Chance(1, 4))
 		refs = append(refs, d)
 		decls = append(decls, d)
 	}
-	// dependent
-	dep := &model.Decl{Name: namePoolIG[3], Enabled: true, Table: namePoolTbl[3], ColTypes: map[string]string{}, InFilter: map[string]model.Filter{}}
-	dep.Sources = []model.SrcRef{{Name: namePoolSrc[0], Start: 1}}
-	site := r.Intn(3)
-	dep.EventName = "Act"
-	switch site {
-	case 0: // filter on a non-indexed event input
-		dep.Inputs = []refmodel.Field{{Name: "amt", Type: refmodel.Uint(128), Column: "amt"}, {Name: "addr", Type: refmodel.Address(), Column: "addr"}}
-		dep.InFilter["addr"] = model.Filter{Op: op, Ref: &model.Ref{Integration: refs[0].Name, Column: "who"}}
-	case 1: // filter on an indexed event input
-		dep.Inputs = []refmodel.Field{{Name: "addr", Type: refmodel.Address(), Column: "addr", Indexed: true}, {Name: "amt", Type: refmodel.Uint(128), Column: "amt"}}
-		dep.InFilter["addr"] = model.Filter{Op: op, Ref: &model.Ref{Integration: refs[0].Name, Column: "who"}}
-	case 2: // filter on a block field
-		dep.Inputs = []refmodel.Field{{Name: "amt", Type: refmodel.Uint(128), Column: "amt"}}
-		dep.Block = []model.BlockField{{Name: "log_addr", Column: "log_addr", ColType: "bytea", Filter: model.Filter{Op: op, Ref: &model.Ref{Integration: refs[0].Name, Column: "who"}}}}
+	var deps []*c05Dep
+	var provs []c05Prov
+	for _, rd := range refs {
+		provs = append(provs, c05Prov{rd.Name, "who"})
 	}
-	// further references from additional block fields
-	extra := []string{"tx_signer", "tx_to"}
-	for i := 1; i < nref; i++ {
-		dep.Block = append(dep.Block, model.BlockField{Name: extra[i-1], Column: extra[i-1], ColType: "bytea", Filter: model.Filter{Op: op, Ref: &model.Ref{Integration: refs[i].Name, Column: "who"}}})
+	deps = append(deps, c05MkDep(r, 3, "Act", provs, 1))
+	second := r.Intn(3) // 0: one dependent, 1: a sibling referencing the same integration, 2: a second-level dependent
+	switch second {
+	case 1:
+		ps := []c05Prov{provs[0]}
+		if nref > 1 && r.Bool() {
+			ps = append(ps, provs[r.Range(1, nref-1)])
+		}
+		deps = append(deps, c05MkDep(r, 4, "Bct", ps, 1))
+	case 2:
+		ps := []c05Prov{{deps[0].decl.Name, deps[0].addrCol()}}
+		if r.Bool() {
+			ps = append(ps, provs[nref-1])
+		}
+		deps = append(deps, c05MkDep(r, 4, "Bct", ps, 2))
 	}
-	if nref > 1 {
-		dep.FilterAgg = vk.Pick(r, []string{"and", "or", ""})
+	for _, d := range deps {
+		decls = append(decls, d.decl)
 	}
-	decls = append(decls, dep)
+	for _, d := range decls {
+		d.Sources = srcRefs
+		if reorgs {
+			// a field that makes the data plan carry parent hashes
+			d.Block = append(d.Block, model.BlockField{Name: "block_time", Column: "block_time", ColType: "numeric"})
+		}
+	}
 
 	// chain: registrations and actions over the address pool; tx signers/recipients from the pool too
-	regMakers := []gen.LogMaker{}
+	makers := []gen.LogMaker{}
 	for _, rd := range refs {
 		if rd.Mode() != model.ModeLog {
 			continue
 		}
 		rd := rd
-		regMakers = append(regMakers, func(r *vk.RNG) simnode.Log {
+		makers = append(makers, func(r *vk.RNG) simnode.Log {
 			return model.MakeLog(rd.EventName, rd.Inputs, []any{vk.Pick(r, pool), r.BigBits(60)}, pool[0])
 		})
 	}
-	actMaker := func(r *vk.RNG) simnode.Log {
-		var vals []any
-		for _, f := range dep.Inputs {
-			if f.Name == "addr" {
-				vals = append(vals, vk.Pick(r, pool))
-			} else {
-				vals = append(vals, r.BigBits(100))
+	for _, d := range deps {
+		d := d
+		act := func(r *vk.RNG) simnode.Log {
+			var vals []any
+			for _, f := range d.decl.Inputs {
+				if f.Name == "addr" {
+					vals = append(vals, vk.Pick(r, pool))
+				} else {
+					vals = append(vals, r.BigBits(100))
+				}
 			}
+			return model.MakeLog(d.decl.EventName, d.decl.Inputs, vals, vk.Pick(r, pool))
 		}
-		return model.MakeLog(dep.EventName, dep.Inputs, vals, vk.Pick(r, pool))
+		makers = append(makers, act, act)
 	}
-	makers := append(append([]gen.LogMaker{}, regMakers...), actMaker, actMaker)
 	seed := r.U64()
 	inner := gen.Content(gen.ChainOpts{Seed: seed, MinTxs: 1, MaxTxs: 3, MaxLogs: 3, Makers: makers})
 	chain := simnode.NewChain(nextChainID(), func(b *simnode.Block) {
@@ -146,10 +230,9 @@ func c05Run(c *vk.Case) {
 		}
 	})
 	chain.Grow(r.Range(6, 14))
-	node := simnode.Global().NewNode(chain)
-	spec := &scen.Spec{
-		Sources: []scen.SourceSpec{{Name: namePoolSrc[0], ChainID: 3, Batch: r.Range(1, 5), Concurrency: r.Range(1, 2), Poll: "1h", Node: node}},
-		Decls:   decls,
+	spec := &scen.Spec{Decls: decls}
+	for _, s := range srcNames {
+		spec.Sources = append(spec.Sources, scen.SourceSpec{Name: s, ChainID: 3, Batch: r.Range(1, 5), Concurrency: r.Range(1, 2), Poll: "1h", Node: simnode.Global().NewNode(chain)})
 	}
 	me := newMultiEnv(c, spec, "")
 	if me == nil {
@@ -160,30 +243,61 @@ func c05Run(c *vk.Case) {
 		c.Violate("setup-rejected:"+me.env.SetupStage, map[string]any{"config": string(me.env.ConfJSON), "error": me.env.SetupErr.Error()}, "configuration rejected at %s: %v", me.env.SetupStage, me.env.SetupErr)
 		return
 	}
-	pairOf := func(ig string) *mPair {
+	if nsrc > 1 {
+		c.Obs("cases_two_sources_one_chain", 1)
+	}
+	if reorgs {
+		c.Obs("cases_with_reorgs", 1)
+	}
+	switch second {
+	case 1:
+		c.Obs("cases_two_referrers_of_one_integration", 1)
+	case 2:
+		c.Obs("cases_second_level_dependent", 1)
+	}
+	pairOf := func(src, ig string) *mPair {
 		for _, p := range me.pairs {
-			if p.ig == ig {
+			if p.ig == ig && p.src == src {
 				return p
 			}
 		}
 		return nil
 	}
-	depP := pairOf(dep.Name)
-	var refP []*mPair
-	for _, rd := range refs {
-		refP = append(refP, pairOf(rd.Name))
+	// per source: the pairs of the referenced integrations and of the dependents
+	refP := map[string][]*mPair{}
+	var depPairs []*c05DepPair
+	depOf := map[*mPair]*c05DepPair{}
+	for _, s := range srcNames {
+		for _, rd := range refs {
+			p := pairOf(s, rd.Name)
+			if p == nil {
+				c.Inconclusive("task of %s/%s missing", s, rd.Name)
+				return
+			}
+			refP[s] = append(refP[s], p)
+		}
+		for _, d := range deps {
+			p := pairOf(s, d.decl.Name)
+			if p == nil {
+				c.Inconclusive("task of %s/%s missing", s, d.decl.Name)
+				return
+			}
+			p.pm.noContent = true
+			dp := &c05DepPair{p: p, d: d}
+			for _, pv := range d.provs {
+				dp.provP = append(dp.provP, pairOf(s, pv.ig))
+			}
+			depPairs = append(depPairs, dp)
+			depOf[p] = dp
+		}
 	}
-	if depP == nil {
-		c.Inconclusive("dependent task missing")
-		return
-	}
-	depP.pm.noContent = true
-	refPos := func(p *mPair) (uint64, bool) { return p.pm.captureLive().position() }
+	position := func(p *mPair) (uint64, bool) { return p.pm.captureLive().position() }
 
 	// between-transactions interleaving through the hook
 	var between func()
+	var betweenTask *shovel.Task
 	shovel.VerifSetSink(nil, func(name string, t *shovel.Task) {
-		if name == "between-txs" && t == depP.task && between != nil {
+		if name == "between-txs" && t == betweenTask && between != nil {
 			f := between
 			between = nil
 			f()
@@ -191,118 +305,236 @@ func c05Run(c *vk.Case) {
 	})
 	defer shovel.VerifSetSink(nil, nil)
 
-	stepDep := func() {
-		before := depP.pm.captureLive()
-		// what the dependent is allowed to reach: min over references of their position BEFORE this step
-		// (a reference may also advance during the step; positions only grow, so the check is made on the commit snapshot)
-		res := me.env.Step(depP.task)
-		c.Obs("steps", 1)
-		if res.Panic != "" {
-			fr := vk.TopShovelFrame(res.Panic)
-			c.Violate("panic:"+fr, merge(me.detail(), map[string]any{"panic": firstLines(res.Panic, 30)}), "Converge panicked in %s", fr)
+	// the monitor runs around every step of a dependent, whoever drives it (also while settling)
+	var beforeState *pairState
+	me.preStep = func(p *mPair) {
+		dp := depOf[p]
+		if dp == nil {
 			return
 		}
-		me.checkOwnership(res.Commits, nil)
-		me.trackFirst(depP, res)
+		beforeState = p.pm.captureLive()
+		dp.before = dp.before[:0]
+		for _, q := range dp.provP {
+			n, _ := position(q)
+			dp.before = append(dp.before, n)
+		}
+	}
+	me.postStep = func(p *mPair, res *scen.StepResult) {
+		dp := depOf[p]
+		if dp == nil {
+			return
+		}
 		committed := false
 		for _, rec := range res.Commits {
-			if rec.Aborted || len(rec.Tx.Effects) == 0 || rec.Snap == nil || rec.Tx.PairIG != dep.Name {
+			if rec.Aborted || len(rec.Tx.Effects) == 0 || rec.Snap == nil {
 				continue
 			}
-			st := depP.pm.captureSnap(rec.Snap)
-			pos, has := st.position()
-			if !has {
+			dc := p.pm.classify(rec)
+			if len(dc.cursorIns) == 0 && len(dc.rowsIns) == 0 {
 				continue
+			}
+			// the highest block this commit records or writes rows for
+			var pos uint64
+			for _, cr := range dc.cursorIns {
+				if cr.num > pos {
+					pos = cr.num
+				}
+			}
+			for _, row := range dc.rowsIns {
+				if n, ok := rowBlockNum(dc.tbl, row); ok && n > pos {
+					pos = n
+				}
 			}
 			committed = true
 			c.Obs("dependent_commits_checked", 1)
-			for i, rp := range refP {
-				rs := rp.pm.captureSnap(rec.Snap)
-				rpos, rhas := rs.position()
-				if !rhas || rpos < pos {
+			if dp.d.level == 2 {
+				c.Obs("second_level_commits_checked", 1)
+			}
+			for i, q := range dp.provP {
+				qs := q.pm.captureSnap(rec.Snap)
+				qpos, qhas := qs.position()
+				// the step read the provider's position at some moment between its start and this commit
+				bound := qpos
+				if dp.before[i] > bound {
+					bound = dp.before[i]
+				}
+				if (!qhas && dp.before[i] == 0) || bound < pos {
 					cls := "reference-behind"
-					if !rhas {
+					if !qhas && dp.before[i] == 0 {
 						cls = "reference-without-position"
 					}
-					c.Violate("dependent-ahead:"+cls, merge(me.detail(), map[string]any{"dependent_position": pos, "reference": refs[i].Name, "reference_position": rpos, "reference_has_position": rhas, "nrefs": nref}),
-						"the dependent recorded block %d while referenced integration %s stands at %d (has position: %v)", pos, refs[i].Name, rpos, rhas)
+					c.Violate("dependent-ahead:"+cls, merge(me.detail(), map[string]any{"dependent": p.name(), "dependent_block": pos, "reference": q.name(), "reference_position_at_commit": qpos, "reference_position_at_step_start": dp.before[i], "nrefs": len(dp.provP), "level": dp.d.level}),
+						"%s recorded or wrote block %d while %s stood at %d when the step began and at %d at the commit", p.name(), pos, q.name(), dp.before[i], qpos)
 				}
 			}
 		}
-		after := depP.pm.captureLive()
+		after := p.pm.captureLive()
 		missing := 0
-		for _, rp := range refP {
-			if _, ok := refPos(rp); !ok {
+		for i, q := range dp.provP {
+			if _, ok := position(q); !ok && dp.before[i] == 0 {
 				missing++
 			}
 		}
 		if missing > 0 {
-			if committed || after.digest(true) != before.digest(true) {
-				c.Violate("dependent-progress-while-reference-unstarted", merge(me.detail(), map[string]any{"unstarted_references": missing, "nrefs": nref}),
-					"the dependent changed its rows/position although %d of %d referenced integrations have recorded nothing yet", missing, nref)
+			if committed || after.digest(true) != beforeState.digest(true) {
+				c.Violate("dependent-progress-while-reference-unstarted", merge(me.detail(), map[string]any{"dependent": p.name(), "unstarted_references": missing, "nrefs": len(dp.provP), "level": dp.d.level}),
+					"%s changed its rows/position although %d of its %d referenced integrations have recorded nothing for that source", p.name(), missing, len(dp.provP))
 			}
 			c.Obs("dependent_idle_while_refs_missing", 1)
+			if nsrc > 1 {
+				for _, s := range srcNames {
+					if s == p.src {
+						continue
+					}
+					for _, pv := range dp.d.provs {
+						if _, ok := position(pairOf(s, pv.ig)); ok {
+							c.Obs("idle_while_started_only_on_other_source", 1)
+						}
+					}
+				}
+			}
 		}
-		pos, _ := after.position()
-		me.trace = append(me.trace, fmt.Sprintf("dep:%s pos=%d", errClass(res.Err), pos))
 	}
-	stepRef := func(i int) {
-		res := me.stepSeq(refP[i], false)
-		_ = res
+	stepDep := func(dp *c05DepPair) {
+		me.anyOwner = between != nil
+		me.stepSeq(dp.p, false)
+		me.anyOwner = false
+	}
+	stepRef := func(s string, i int) { me.stepSeq(refP[s][i], false) }
+	depsOn := func(s string) []*c05DepPair {
+		var out []*c05DepPair
+		for _, dp := range depPairs {
+			if dp.p.src == s {
+				out = append(out, dp)
+			}
+		}
+		return out
 	}
 
 	// adversarial order
-	pattern := r.Intn(5)
-	started := make([]bool, nref)
+	npat := 5
+	if nsrc > 1 {
+		npat = 6
+	}
+	pattern := r.Intn(npat)
+	if reorgs && r.Chance(1, 2) {
+		pattern = 6
+	}
+	started := map[string][]bool{}
+	for _, s := range srcNames {
+		started[s] = make([]bool, nref)
+	}
+	s0 := srcNames[0]
 	switch pattern {
-	case 0: // dependent first, references never started for a while
+	case 0: // dependents first, references never started for a while
 		for k := 0; k < 3; k++ {
-			stepDep()
+			for _, dp := range depPairs {
+				stepDep(dp)
+			}
 		}
 	case 1: // only some references started
 		if nref > 1 {
 			c.Obs("cases_some_refs_unstarted", 1)
 		}
-		for i := 0; i < nref-1; i++ {
-			stepRef(i)
-			stepRef(i)
-			started[i] = true
+		for _, s := range srcNames {
+			for i := 0; i < nref-1; i++ {
+				stepRef(s, i)
+				stepRef(s, i)
+				started[s][i] = true
+			}
 		}
 		for k := 0; k < 3; k++ {
-			stepDep()
+			for _, dp := range depPairs {
+				stepDep(dp)
+			}
 		}
 	case 2: // references far ahead
-		for i := 0; i < nref; i++ {
-			for k := 0; k < 6; k++ {
-				stepRef(i)
+		for _, s := range srcNames {
+			for i := 0; i < nref; i++ {
+				for k := 0; k < 6; k++ {
+					stepRef(s, i)
+				}
 			}
 		}
 	case 3: // lock-step
 	case 4: // a reference steps between the dependent's two transactions
+	case 5: // everything referenced runs ahead on the first source only; the dependents of the second source are stepped
+		for i := 0; i < nref; i++ {
+			for k := 0; k < 6; k++ {
+				stepRef(s0, i)
+			}
+		}
+		for _, dp := range depsOn(s0) {
+			stepDep(dp)
+			stepDep(dp)
+		}
+		for k := 0; k < 3; k++ {
+			for _, dp := range depsOn(srcNames[1]) {
+				stepDep(dp)
+			}
+		}
+	case 6: // references far ahead, a dependent trails; the chain reorganises below the references' positions; they step once; the dependent keeps stepping
+		for _, s := range srcNames {
+			for i := 0; i < nref; i++ {
+				for k := 0; k < 14; k++ {
+					stepRef(s, i)
+				}
+			}
+		}
+		for _, dp := range depPairs {
+			stepDep(dp)
+		}
+		d := r.Range(2, 4)
+		chain.Reorg(d, d+1)
+		c.Obs("reorgs_applied", 1)
+		me.trace = append(me.trace, fmt.Sprintf("reorg(%d)", d))
+		for _, s := range srcNames {
+			for i := 0; i < nref; i++ {
+				stepRef(s, i)
+			}
+		}
+		for k := 0; k < 8 && len(c.Res.Violations) == 0; k++ {
+			for _, dp := range depPairs {
+				stepDep(dp)
+			}
+		}
 	}
 	nops := r.Range(15, 40)
 	for k := 0; k < nops && len(c.Res.Violations) == 0; k++ {
-		switch x := r.Intn(8); {
+		s := vk.Pick(r, srcNames)
+		switch x := r.Intn(9); {
 		case x == 0:
 			chain.Grow(r.Range(1, 3))
 			me.trace = append(me.trace, "grow")
+		case x == 8:
+			if reorgs {
+				d := r.Range(1, 3)
+				chain.Reorg(d, d+r.Intn(2))
+				c.Obs("reorgs_applied", 1)
+				me.trace = append(me.trace, fmt.Sprintf("reorg(%d)", d))
+			}
 		case x <= 3:
+			dp := vk.Pick(r, depsOn(s))
 			if pattern == 4 || r.Chance(1, 5) {
-				i := r.Intn(nref)
+				q := vk.Pick(r, dp.provP)
+				betweenTask = dp.p.task
 				between = func() {
 					c.Obs("between_tx_interleavings", 1)
-					refP[i].task.Converge()
+					q.task.Converge()
 				}
 			}
-			stepDep()
+			stepDep(dp)
 			between = nil
 		default:
 			i := r.Intn(nref)
-			if pattern == 1 && !started[nref-1] && i == nref-1 && k < nops/2 {
+			if pattern == 1 && !started[s][nref-1] && i == nref-1 && k < nops/2 {
 				continue // keep the last reference unstarted for the first half
 			}
-			stepRef(i)
-			started[i] = true
+			if pattern == 5 && s != s0 && k < nops/2 {
+				continue
+			}
+			stepRef(s, i)
+			started[s][i] = true
 		}
 	}
 	if len(c.Res.Violations) > 0 {
@@ -312,92 +544,128 @@ func c05Run(c *vk.Case) {
 	chain.Grow(1)
 	if !me.settle(int(chain.Head().Num)*2+60, nil) {
 		if len(c.Res.Violations) == 0 {
-			c.Violate("no-quiescence", merge(me.detail(), map[string]any{"dep_last_error": depP.lastErr}), "not all pairs reached the head (dependent's last error: %s)", depP.lastErr)
+			var errs []string
+			for _, dp := range depPairs {
+				errs = append(errs, dp.p.name()+": "+dp.p.lastErr)
+			}
+			c.Violate("no-quiescence", merge(me.detail(), map[string]any{"dependents_last_errors": errs}), "not all pairs reached the head (dependents' last errors: %v)", errs)
 		}
 		return
 	}
-	// final: references equal their plain projection; the dependent lies between required and allowed
-	for _, rp := range refP {
-		rp.pm.first = rp.first
-		rp.pm.quiescenceVerdict(chain.Head().Num, rp.plan, merge(me.detail(), map[string]any{"pair": rp.name()}))
+	// final: references equal their plain projection; every dependent lies between required and allowed
+	for _, s := range srcNames {
+		for _, rp := range refP[s] {
+			rp.pm.first = rp.first
+			rp.pm.quiescenceVerdict(chain.Head().Num, rp.plan, merge(me.detail(), map[string]any{"pair": rp.name()}))
+		}
 	}
 	if len(c.Res.Violations) > 0 {
 		return
 	}
-	// referenced contents: value -> lowest block at which a row holds it
-	firstSeen := map[string]map[string]uint64{}
-	for i, rp := range refP {
-		t, rows, _ := rp.pm.pairRows()
-		m := map[string]uint64{}
-		ci := t.ColIdx("who")
-		for _, row := range rows {
-			n, _ := rowBlockNum(t, row)
-			if v, ok := row.Vals[ci].([]byte); ok {
-				k := string(v)
-				if cur, ok := m[k]; !ok || n < cur {
-					m[k] = n
+	for _, dp := range depPairs {
+		if _, _, cursors := dp.p.pm.pairRows(); len(cursors) == 0 {
+			c.Violate("dependent-never-started", merge(me.detail(), map[string]any{"dependent": dp.p.name()}), "%s recorded no position although everything it references reached the head", dp.p.name())
+			return
+		}
+	}
+	if !reorgs {
+		// looked-up contents per source: value -> lowest block at which a row of that source holds it
+		firstSeen := map[string]map[string]map[string]uint64{}
+		for _, s := range srcNames {
+			firstSeen[s] = map[string]map[string]uint64{}
+			for _, d := range deps {
+				for _, pv := range d.provs {
+					key := pv.ig + "." + pv.col
+					if firstSeen[s][key] != nil {
+						continue
+					}
+					t, rows, _ := pairOf(s, pv.ig).pm.pairRows()
+					m := map[string]uint64{}
+					firstSeen[s][key] = m
+					if t == nil {
+						continue
+					}
+					ci := t.ColIdx(pv.col)
+					for _, row := range rows {
+						n, _ := rowBlockNum(t, row)
+						if v, ok := row.Vals[ci].([]byte); ok {
+							k := string(v)
+							if cur, ok := m[k]; !ok || n < cur {
+								m[k] = n
+							}
+						}
+					}
 				}
 			}
 		}
-		firstSeen[refs[i].Name] = m
-	}
-	mkLook := func(atBlock bool, n uint64) model.RefLookup {
-		return func(ig, col string, v fakepg.Value) bool {
-			b, _ := v.([]byte)
-			f, ok := firstSeen[ig][string(b)]
-			if !ok {
-				return false
+		for _, dp := range depPairs {
+			if c05Content(c, me, chain, dp, srcNames, firstSeen) {
+				break
 			}
-			return !atBlock || f <= n
 		}
 	}
-	t, rows, cursors := depP.pm.pairRows()
-	if len(cursors) == 0 {
-		c.Violate("dependent-never-started", me.detail(), "the dependent recorded no position although all references reached the head")
-		return
+	if len(c.Res.Violations) == 0 {
+		d0 := deps[0]
+		c.SetSig("nref=%d site=%d op=%s agg=%s pattern=%d txref=%v nsrc=%d second=%d reorgs=%v", nref, d0.site, d0.op, d0.decl.FilterAgg, pattern, refs[0].Mode() == model.ModeTx, nsrc, second, reorgs)
 	}
+	if c.Index < 4 {
+		c.Sample(map[string]any{"config": string(me.env.ConfJSON), "pattern": pattern, "schedule": lastN(me.trace, 60)})
+	}
+}
+
+// c05Content: the dependent's rows lie between what its lookups must have seen
+// (values its own source's referenced rows hold at or below the block) and
+// what they can have seen (values anywhere in the final referenced tables).
+func c05Content(c *vk.Case, me *multiEnv, chain *simnode.Chain, dp *c05DepPair, srcNames []string, firstSeen map[string]map[string]map[string]uint64) (violated bool) {
+	d := dp.d
+	mkLook := func(own bool, n uint64) model.RefLookup {
+		return func(ig, col string, v fakepg.Value) bool {
+			b, _ := v.([]byte)
+			key := ig + "." + col
+			if own {
+				f, ok := firstSeen[dp.p.src][key][string(b)]
+				return ok && f <= n
+			}
+			for _, s := range srcNames {
+				if _, ok := firstSeen[s][key][string(b)]; ok {
+					return true
+				}
+			}
+			return false
+		}
+	}
+	t, rows, _ := dp.p.pm.pairRows()
 	byBlock := map[uint64][]model.Row{}
 	for _, row := range model.StoredRows(t, rows) {
 		n, _ := rowBlockNum(t, rowsByVals(t, row))
 		byBlock[n] = append(byBlock[n], row)
 	}
 	cols := tableCols(t)
-	for n := depP.first; n <= chain.Head().Num; n++ {
+	for n := dp.p.first; n <= chain.Head().Num; n++ {
 		b := chain.At(n)
 		lo, hi := mkLook(true, n), mkLook(false, n)
-		if neg {
+		if d.neg {
 			lo, hi = hi, lo // !contains: acceptance shrinks as the referenced table grows
 		}
-		req := model.ProjectBlock(dep, namePoolSrc[0], 3, b, lo)
-		allow := model.ProjectBlock(dep, namePoolSrc[0], 3, b, hi)
+		req := model.ProjectBlock(d.decl, dp.p.src, 3, b, lo)
+		allow := model.ProjectBlock(d.decl, dp.p.src, 3, b, hi)
 		got := byBlock[n]
 		_, missing := model.DiffRows(got, req, cols)
 		extra, _ := model.DiffRows(got, allow, cols)
 		c.Obs("dependent_rows_required", int64(len(req)))
-		c.Obs("dependent_rows_rejected", int64(len(model.ProjectBlock(dep, namePoolSrc[0], 3, b, func(string, string, fakepg.Value) bool { return !neg }))-len(allow)))
+		c.Obs("dependent_rows_rejected", int64(len(model.ProjectBlock(d.decl, dp.p.src, 3, b, func(string, string, fakepg.Value) bool { return !d.neg }))-len(allow)))
 		if len(missing) > 0 {
-			c.Violate("dependent-rows-missing", merge(me.detail(), map[string]any{"block": n, "missing": shortList(missing, 4), "polarity": op, "site": site}),
-				"block %d: %d row(s) whose value is referenced at or below that block are missing from the dependent's table", n, len(missing))
-			break
+			c.Violate("dependent-rows-missing", merge(me.detail(), map[string]any{"dependent": dp.p.name(), "block": n, "missing": shortList(missing, 4), "polarity": d.op, "site": d.site, "level": d.level}),
+				"%s block %d: %d row(s) whose value is referenced at or below that block are missing from the dependent's table", dp.p.name(), n, len(missing))
+			return true
 		}
 		if len(extra) > 0 {
-			c.Violate("dependent-rows-unreferenced", merge(me.detail(), map[string]any{"block": n, "extra": shortList(extra, 4), "polarity": op, "site": site}),
-				"block %d: %d row(s) in the dependent's table are not accepted by any state of the referenced tables", n, len(extra))
-			break
+			c.Violate("dependent-rows-unreferenced", merge(me.detail(), map[string]any{"dependent": dp.p.name(), "block": n, "extra": shortList(extra, 4), "polarity": d.op, "site": d.site, "level": d.level}),
+				"%s block %d: %d row(s) in the dependent's table are not accepted by any state of the referenced tables", dp.p.name(), n, len(extra))
+			return true
 		}
 	}
-	var outcomes []string
-	for k := range map[string]bool{} {
-		outcomes = append(outcomes, k)
-	}
-	sort.Strings(outcomes)
-	if len(rows) > 0 || len(cursors) > 0 {
-		c.SetSig("nref=%d site=%d op=%s agg=%s pattern=%d txref=%v", nref, site, op, dep.FilterAgg, pattern, refs[0].Mode() == model.ModeTx)
-	}
-	if c.Index < 4 {
-		c.Sample(map[string]any{"config": string(me.env.ConfJSON), "pattern": pattern, "schedule": lastN(me.trace, 60)})
-	}
-	_ = bytes.Equal
+	return false
 }
 
 // rowsByVals rebuilds a fakepg.Row from a model.Row (for helpers keyed on table rows).
